@@ -105,6 +105,7 @@ func checkC02(c *Ctx) {
 	// C02.8 writer/reader agreement on the signed bytes
 	c02SignedBytes(c)
 	c02Equality(c)
+	c02ByteWidths(c)
 	c02SubgroupCheck(c)
 }
 
@@ -883,6 +884,55 @@ func c02FindHighest(c *Ctx) {
 				"accepting exit at "+join(open)+" reachable with an attached aggregate QC although not "+want.what+": a leader can justify its proposal with a stale QC (Fast-HotStuff's vote rule trusts the aggregate's high QC)")
 		}
 	}
+}
+
+// c02ByteWidths (C02.8/width): the bytes that get signed carry their integers in full: no ToBytes function of the
+// protocol types narrows a 64-bit quantity (a view) before writing it, so two values that differ only in the high
+// bits never sign alike.
+func c02ByteWidths(c *Ctx) {
+	p := c.P
+	n := 0
+	var bad []string
+	for _, fn := range p.ModFuncs {
+		if fn.Name() != "ToBytes" || funcPkgPath(fn) != modPath || fn.Blocks == nil || strings.HasSuffix(p.FuncPos(fn), "_test.go") {
+			continue
+		}
+		n++
+		eachInstr(fn, func(in ssa.Instruction) {
+			cv, ok := in.(*ssa.Convert)
+			if !ok {
+				return
+			}
+			src, ok1 := cv.X.Type().Underlying().(*types.Basic)
+			dst, ok2 := cv.Type().Underlying().(*types.Basic)
+			if !ok1 || !ok2 || src.Info()&types.IsInteger == 0 || dst.Info()&types.IsInteger == 0 {
+				return
+			}
+			size := func(b *types.Basic) int64 { return types.SizesFor("gc", "amd64").Sizeof(b) }
+			if size(dst) < size(src) {
+				bad = append(bad, p.InstrPos(in)+": "+src.Name()+" narrowed to "+dst.Name())
+			}
+		})
+		// a fixed-size buffer is filled by a write of its own width
+		eachInstr(fn, func(in ssa.Instruction) {
+			call, ok := in.(*ssa.Call)
+			if !ok || call.Call.StaticCallee() == nil || !strings.Contains(call.Call.StaticCallee().String(), "encoding/binary.") || !strings.HasPrefix(call.Call.StaticCallee().Name(), "PutUint") || len(call.Call.Args) < 2 {
+				return
+			}
+			bits := strings.TrimPrefix(call.Call.StaticCallee().Name(), "PutUint")
+			if sl, ok := call.Call.Args[1].(*ssa.Slice); ok {
+				if a, ok := sl.X.(*ssa.Alloc); ok {
+					if arr, ok := a.Type().Underlying().(*types.Pointer).Elem().Underlying().(*types.Array); ok {
+						if itoa(int(arr.Len()*8)) != bits {
+							bad = append(bad, p.InstrPos(in)+": a "+itoa(int(arr.Len()))+"-byte buffer is filled with PutUint"+bits)
+						}
+					}
+				}
+			}
+		})
+	}
+	c.Check(n > 0 && len(bad) == 0, "C02.8/width", "ToBytes of the protocol types: integers are written in full", "types.go",
+		itoa(n)+" ToBytes functions: no integer is narrowed, every fixed buffer is filled by a write of its own width", join(bad))
 }
 
 // c02Equality (C02.7/equals): QuorumCert.Equals, which ties a block's QC to the high QC of an aggregate, answers true only
